@@ -33,6 +33,7 @@ fn main() {
         "replay" => cmd_replay(&args),
         "diff" => cmd_diff(&args),
         "dump" => cmd_dump(&args),
+        "procenum" => cmd_procenum(&args),
         "hash-replay" => {
             let text = std::fs::read_to_string(&args[2]).expect("read");
             let v: serde_json::Value = serde_json::from_str(&text).expect("json");
@@ -297,4 +298,55 @@ fn cmd_dump(args: &[String]) {
         let rows: Vec<serde_json::Value> = c.by_schedule.iter().map(|(k, h)| serde_json::json!({"schedule": k, "hash": format!("{h:016x}"), "lines": c.sample_lines.get(h)})).collect();
         println!("{}", serde_json::json!({"scenario": *s, "rows": rows}));
     }
+}
+
+/// One process = one call sequence against the process-wide default mailbox capacity.
+/// ops: set<N> | spawn | spawn0      e.g.  rsv procenum set5,spawn,set2,spawn
+fn cmd_procenum(args: &[String]) {
+    let seq = args.get(2).cloned().unwrap_or_default();
+    let mut results: Vec<serde_json::Value> = Vec::new();
+    for (i, op) in seq.split(',').filter(|s| !s.is_empty()).enumerate() {
+        if let Some(n) = op.strip_prefix("set") {
+            let n: usize = n.parse().expect("setN");
+            let r = rsactor::set_default_mailbox_capacity(n);
+            let kind = match &r {
+                Ok(()) => "Ok".to_string(),
+                Err(rsactor::Error::MailboxCapacity { .. }) => "Err(MailboxCapacity)".to_string(),
+                Err(e) => format!("Err(other: {e})"),
+            };
+            results.push(serde_json::json!({"op": op, "result": kind}));
+        } else if op == "spawn" || op == "spawn0" {
+            // an actor parked in on_start; one client sends 40 tells back to back: as many complete as the mailbox holds
+            let mut a = ActorSpec::plain(1);
+            a.cap = if op == "spawn0" { Some(0) } else { None };
+            a.on_start = HookSpec { entry_yield: true, steps: vec![Step::Park], out: Outcome::Ok, free: false };
+            a.at_start = op != "spawn0";
+            let mut steps = Vec::new();
+            if op == "spawn0" {
+                steps.push(Step::Spawn { actor: 0, to: 0 });
+            } else {
+                for k in 0..40u32 {
+                    steps.push(Step::Send { kind: SendKind::Tell, slot: 0, msg: MsgSpec::quick(1 + k) });
+                }
+            }
+            let scn = Scenario {
+                name: format!("procenum-{i}-{op}"),
+                actors: vec![a],
+                clients: vec![Program { slots: if op == "spawn0" { vec![] } else { vec![(0, 0)] }, steps, auto_yield: false, free: false }],
+                registry: false,
+                seed: 0,
+                tags: vec![],
+            };
+            let scn = Arc::new(scn);
+            let (r, _) = explore::run_schedule(&scn, &[]);
+            let ct = explore::canon(&r.trace, &r.raw_ids);
+            let completed = ct.iter().filter(|e| matches!(&e.k, EvK::OpEnd { res: Res::Ok, .. })).count();
+            let reported = ct.iter().find_map(|e| if let EvK::Spawned { cap_reported, .. } = &e.k { Some(*cap_reported) } else { None });
+            let panicked = ct.iter().find_map(|e| if let EvK::SpawnPanic { msg, .. } = &e.k { Some(msg.clone()) } else { None });
+            results.push(serde_json::json!({"op": op, "tells_completed_before_one_waits": completed, "capacity_reported": reported, "spawn_panic": panicked, "machinery_error": r.error}));
+        } else {
+            results.push(serde_json::json!({"op": op, "result": "unknown op"}));
+        }
+    }
+    println!("{}", serde_json::json!({"seq": seq, "results": results}));
 }
